@@ -19,8 +19,11 @@ TEncrypt == IsOp("encrypt") /\ Chk(Ev.bad = 0 /\ Ev.rc = 1 /\ Ev.ppub = Ev.refpp
 TDecrypt == IsOp("decrypt") /\ Chk(Ev.xrc = 1 /\ Ev.de = Ev.refde /\ (IF Ev.genuine THEN Ev.rc = 1 /\ Ev.out = Ev.expect ELSE Ev.rc # 1))
 (* both parties derive the key the reference derives *)
 TExchange == IsOp("exchange") /\ Chk(Ev.xa = 1 /\ Ev.xb = 1 /\ Ev.rc1a = 1 /\ Ev.rc1b = 1 /\ Ev.rc2a = 1 /\ Ev.RA = Ev.refRA /\ Ev.skA = Ev.skB /\ Ev.skA = Ev.refsk)
+(* key extraction: the key GM/T 0044 defines -- and no key at all for the one master secret per identity with t1 = H1(ID||hid) + ks = 0 (mod N) *)
+TExtract == (IsOp("sign_extract") \/ IsOp("enc_extract") \/ IsOp("exch_extract"))
+            /\ Chk(IF Ev.t1zero THEN Ev.xrc # 1 ELSE Ev.xrc = 1 /\ Ev.key = Ev.refkey)
 TReset == l <= Len(TraceLog) /\ Ev.e = "Reset" /\ l' = l + 1
-Next == TSign \/ TVerify \/ TEncrypt \/ TDecrypt \/ TExchange \/ TReset
+Next == TSign \/ TVerify \/ TEncrypt \/ TDecrypt \/ TExchange \/ TExtract \/ TReset
 Spec == Init /\ [][Next]_l
 Accepted == LET d == TLCGet("stats").diameter IN IF d - 1 = Len(TraceLog) THEN TRUE ELSE PrintT(<<"REJECTED", d, TraceLog[d].e>>) /\ FALSE
 =============================================================================
